@@ -55,6 +55,33 @@ def run(ctx):
                                    "clause": "a plain list (missing as None) does not get the flags of the same numbers as an ndarray"})
     r2["failures"] += extra_fail
     r2["evaluations"] += extra_n
+    # DECIMAL limits (26.1, 65.2, -21.3: not binary fractions) with observations sitting exactly ON them: the limits are
+    # inclusive, and a value that is the very float of a limit is inside whatever arithmetic surrounds the comparison
+    # (implementation-only predicate, outside the dyadic grid of the correspondence)
+    import numpy as np
+    from ioos_qc import axds, qartod
+    dec = [26.1, 65.2, -21.3, 0.1, 0.7, 22.2, 57.7, 1013.3, 35.6, 7.9, -0.3, 100.1]
+    dec_fail, dec_n = [], 0
+    for _ in range(60 if tier == "quick" else 600):
+        a, b = sorted(rng.sample(dec, 2))
+        vals = [a, b, (a + b) / 2, float("nan")]
+        mode = rng.choice(["fail", "suspect", "valid"])
+        if mode == "fail":
+            kw, fn, want = {"inp": np.array(vals), "fail_span": rng.choice([(a, b), [b, a]])}, qartod.gross_range_test, "F:1,1,1,9"
+        elif mode == "suspect":
+            kw, fn, want = {"inp": np.array(vals), "fail_span": (a - 10, b + 10), "suspect_span": rng.choice([(a, b), [b, a]])}, \
+                qartod.gross_range_test, "F:1,1,1,9"
+        else:
+            kw, fn, want = {"inp": np.array(vals), "valid_span": (a, b), "start_inclusive": True, "end_inclusive": True}, \
+                axds.valid_range_test, "F:1,1,1,9"
+        got, _ = core.call_impl(fn, kw)
+        dec_n += 1
+        if got != want:
+            dec_fail.append({"kind": "predicate", "function": fn.__name__, "case": {k: (v.tolist() if hasattr(v, "tolist") else list(v) if isinstance(v, (tuple, list)) else v) for k, v in kw.items()},
+                             "impl": got, "spec": want,
+                             "clause": "observations exactly on decimal limits (inclusive) are inside the span"})
+    r1["failures"] += dec_fail
+    r1["evaluations"] += dec_n
     # 2-D inputs in C and Fortran memory order: interval membership is decided element by element
     nd = [cc.layout_block(ad_, [c for c in gen_(tier, rng) if len(c["xs"]) in (4, 6, 8)], tier, rng)
           for ad_, gen_ in ((fns.GrossRange(), fns.gen_gross), (fns.ValidRange(), fns.gen_valid))]
